@@ -232,7 +232,7 @@ class C08(Check):
     # == B: import trees =================================================================================
     def part_b(self, ctx, cssutils):
         rng = ctx.sub_rng('B')
-        cases = list(G.fixed_trees()) + [G.gen_tree(rng) for _ in range(ctx.n(3000, 40000))]
+        cases = list(G.fixed_trees()) + G.bom_trees() + [G.gen_tree(rng) for _ in range(ctx.n(3000, 40000))]
         self.check_trees(ctx, cssutils, cases)
 
     def check_trees(self, ctx, cssutils, cases):
@@ -268,10 +268,11 @@ class C08(Check):
         """the statement of the property on the DOM that came out, from the tree description alone"""
         if res['status'] != 'ok':
             if res['status'] in ('LookupError', 'UnicodeDecodeError') and c.mode == 'ps' and isinstance(c.root, bytes):
-                # documented for the root sheet given as bytes: its own bytes do not decode / its `encoding=` is unknown
+                # documented for the root sheet given as bytes — when its own bytes do not decode in the encoding the
+                # precedence gives (override, else BOM/@charset, else UTF-8) or that name is unknown to the runtime
+                want = c.override if c.override is not None else (G.spec_explicit(c.root) or 'utf-8')
                 try:
-                    import codecs
-                    codecs.getdecoder('css')(c.root, encoding=c.override)
+                    c.root.decode(want)
                 except (LookupError, UnicodeDecodeError):
                     return
             if res['status'] == 'none':
